@@ -103,6 +103,7 @@ struct Value {
                 const size_t bracket_start = i;
                 size_t depth = 1;
                 while ((++i) <= args_len && depth > 0) {
+                    if (i == args_len) break; // the text ends here: what follows it (the bracket around a body) does not close anything in it
                     ch = args_string[i];
                     if (ch == '#') {
                         // a comment runs to the end of its line: brackets in it are text, not structure
